@@ -172,7 +172,8 @@ def case_fn(ctx, inp):
         ctx.eq("reshape_rechunk vs Lean reshapeRechunk", m[:3] if m[0] == Sym("ok") else m, impl)
         if ri is None:
             ctx.branch("reshape_rechunk:" + ("not-implemented" if impl[1] == Sym("NotImplementedError") else "raised"))
-            if impl[1] != Sym("NotImplementedError") and min(inshape + outshape) > 0 and math.prod(inshape) == math.prod(outshape):
+            if impl[1] != Sym("NotImplementedError") and not single and min(inshape + outshape) > 0 \
+                    and math.prod(inshape) == math.prod(outshape):
                 ctx.fail("reshape_rechunk raised something other than NotImplementedError on valid shapes", observed=str(impl[1]))
             return
         if min(inshape + outshape) == 0:
@@ -629,7 +630,136 @@ def case_shuf(ctx, inp):
         ctx.branch("take:blocks-diffed")
 
 
-CASES = {"shuf": case_shuf, "fn": case_fn, "concat": case_concat, "pad1d": case_pad1d, "roll1d": case_roll1d, "op": case_op}
+
+# ---------------------------------------------------------------------------
+# blockwise / key-map plans (Model/StructuralOps.lean): chunks and every block vs the Lean plan
+# ---------------------------------------------------------------------------
+
+def _blocks2(r):
+    import numpy as np
+    return [[np.asarray(r.blocks[i, j].compute(scheduler="sync")).tolist() for j in range(len(r.chunks[1]))]
+            for i in range(len(r.chunks[0]))]
+
+
+def _nz_grid(c0, c1, blocks):
+    """drop zero-length chunks and their (empty) blocks: slicing / arange-based plans drop them, the values are unaffected"""
+    keep0 = [i for i, c in enumerate(c0) if c]
+    keep1 = [j for j, c in enumerate(c1) if c]
+    return [[c0[i] for i in keep0], [c1[j] for j in keep1], [[blocks[i][j] for j in keep1] for i in keep0]]
+
+
+def _grid_eq(ctx, what, m, r):
+    real = [list(map(int, r.chunks[0])), list(map(int, r.chunks[1]))]
+    if [m[0], m[1]] != real and (0 in m[0] + m[1] + real[0] + real[1]):
+        # only zero-length chunks may be dropped
+        ctx.branch("grid:zero-length-chunks-dropped")
+        if _nz_grid(m[0], m[1], m[2])[:2] == [[c for c in real[0] if c], [c for c in real[1] if c]]:
+            ctx.eq(f"{what}: every non-empty block of the result vs the Lean plan", _nz_grid(m[0], m[1], m[2]),
+                   _nz_grid(real[0], real[1], _blocks2(r)))
+            return
+    ctx.eq(f"{what}: chunks of the result vs the Lean plan", [m[0], m[1]], real)
+    if [m[0], m[1]] == real:
+        ctx.eq(f"{what}: every block of the result vs the Lean plan", m[2], _blocks2(r))
+
+
+def case_grid(ctx, inp):
+    import numpy as np
+    import dask.array as da
+    setup_dask()
+    op = inp["op"]
+    if op in ("transpose", "flip0", "flip1", "rot90", "tril", "triu", "swapaxes", "moveaxis", "T"):
+        rc, cc, k = inp["rc"], inp["cc"], inp.get("k", 0)
+        x, d = _mk([rc, cc])
+        lop = "transpose" if op in ("swapaxes", "moveaxis", "T") else op
+        m = ctx.lean(Sym("grid_op"), Sym(lop), k, rc, cc, x.tolist())
+        r, e = {"transpose": lambda: (d.transpose((1, 0)), x.transpose((1, 0))),
+                "T": lambda: (d.T, x.T),
+                "swapaxes": lambda: (da.swapaxes(d, 0, -1), np.swapaxes(x, 0, -1)),
+                "moveaxis": lambda: (da.moveaxis(d, 0, 1), np.moveaxis(x, 0, 1)),
+                "flip0": lambda: (da.flip(d, 0), np.flip(x, 0)),
+                "flip1": lambda: (da.flip(d, -1), np.flip(x, -1)),
+                "rot90": lambda: (da.rot90(d, k), np.rot90(x, k)),
+                "tril": lambda: (da.tril(d, k), np.tril(x, k)),
+                "triu": lambda: (da.triu(d, k), np.triu(x, k))}[op]()
+        if not _same(ctx, op, r, e, blocks=False):
+            return
+        if op == "rot90" and k % 4 == 0:
+            ctx.branch("grid:rot90:k=0")
+            return
+        if len(rc) * len(cc) <= 36:
+            _grid_eq(ctx, op, m, r)
+        ctx.branch("grid:" + op + (":k=%d" % (k % 4) if op == "rot90" else "") +
+                   (":zero-chunk" if 0 in rc + cc else "") + (":multi" if len(rc) * len(cc) > 1 else ""))
+    elif op == "stack":
+        cs, n, axis = inp["cs"], inp["n"], inp["axis"]
+        pairs = [_mk([cs], seed=i) for i in range(n)]
+        r, e = da.stack([p[1] for p in pairs], axis=axis), np.stack([p[0] for p in pairs], axis=axis)
+        m = ctx.lean(Sym("stack_op"), axis % 2, cs, [p[0].tolist() for p in pairs])
+        if not _same(ctx, "stack", r, e, blocks=False):
+            return
+        if r.size:   # stack drops nothing here; an all-empty stack is a single `empty`
+            _grid_eq(ctx, "stack", m, r)
+            if [m[0], m[1]] == [list(map(int, r.chunks[0])), list(map(int, r.chunks[1]))]:
+                # the key map itself: key (k, j) <- (name of array k, j)
+                layer = dict(r.dask.layers[r.name])
+                names = [p[1].name for p in pairs]
+                for key in layer:
+                    kk, jj = (key[1], key[2]) if axis % 2 == 0 else (key[2], key[1])
+                    deps = getattr(layer[key], "dependencies", None)
+                    src = next(iter(deps)) if deps else layer[key][1]
+                    if tuple(src) != (names[kk], jj):
+                        ctx.fail("stack: key map differs from (array k, block j)", observed=[list(key[1:]), list(src[1:])])
+                        break
+        ctx.branch("grid:stack:axis%d" % (axis % 2))
+    elif op == "bcast_rows":
+        rows, cs = inp["rows"], inp["cs"]
+        x, d = _mk([cs])
+        shape = (sum(rows), sum(cs))
+        r, e = da.broadcast_to(d, shape, chunks=(tuple(rows), tuple(cs))), np.broadcast_to(x, shape)
+        m = ctx.lean(Sym("bcast_rows"), rows, cs, x.tolist())
+        if not _same(ctx, "broadcast_to (new leading axis)", r, e, blocks=False):
+            return
+        ctx.eq("broadcast_to: chunks vs the Lean plan", [m[0], m[1]], [list(map(int, r.chunks[0])), list(map(int, r.chunks[1]))])
+        if [m[0], m[1]] == [list(map(int, r.chunks[0])), list(map(int, r.chunks[1]))]:
+            ctx.eq("broadcast_to: every block vs the Lean plan", m[2], _blocks2(r))
+        ctx.branch("grid:broadcast_to:rows")
+    elif op == "bcast_len1":
+        new = inp["new"]
+        x, d = _mk([[1]], seed=inp.get("seed", 3))
+        r, e = da.broadcast_to(d, (sum(new),), chunks=(tuple(new),)), np.broadcast_to(x, (sum(new),))
+        m = ctx.lean(Sym("bcast_len1"), new, int(x[0]))
+        if not _same(ctx, "broadcast_to (length-one axis)", r, e, blocks=False):
+            return
+        ctx.eq("broadcast_to: chunks vs the Lean plan", m[0], list(map(int, r.chunks[0])))
+        if m[0] == list(map(int, r.chunks[0])):
+            ctx.eq("broadcast_to: every block vs the Lean plan", m[1],
+                   [np.asarray(r.blocks[i].compute(scheduler="sync")).tolist() for i in range(len(r.chunks[0]))])
+        ctx.branch("grid:broadcast_to:len1")
+    elif op in ("flip1d", "tile1d", "diff1d"):
+        cs, rr = inp["cs"], inp.get("r", 1)
+        x, d = _mk([cs])
+        blocks = [np.asarray(d.blocks[i].compute(scheduler="sync")).tolist() for i in range(len(cs))]
+        if op == "flip1d":
+            r, e, m = da.flip(d, 0), np.flip(x, 0), ctx.lean(Sym("list_op"), Sym("flip"), 0, blocks)
+        elif op == "tile1d":
+            r, e, m = da.tile(d, rr), np.tile(x, rr), ctx.lean(Sym("list_op"), Sym("tile"), rr, blocks)
+        else:
+            r, e = da.diff(d, n=rr), np.diff(x, n=rr)
+            ctx.eq("np.diff vs Lean diffN", ctx.lean(Sym("list_op"), Sym("diff"), rr, blocks), e.tolist())
+            _same(ctx, "diff", r, e)
+            ctx.branch("grid:diff1d:n=%d" % min(rr, 3))
+            return
+        if not _same(ctx, op, r, e, blocks=False):
+            return
+        real = [np.asarray(r.blocks[i].compute(scheduler="sync")).tolist() for i in range(len(r.chunks[0]))]
+        # flip drops nothing; zero-length chunks stay where they are (reversed order)
+        ctx.eq(f"{op}: the list of blocks vs the Lean plan", m, real)
+        ctx.branch("grid:" + op)
+    else:
+        raise ValueError(op)
+
+
+CASES = {"grid": case_grid, "shuf": case_shuf, "fn": case_fn, "concat": case_concat, "pad1d": case_pad1d, "roll1d": case_roll1d, "op": case_op}
 
 
 # ---------------------------------------------------------------------------
@@ -892,6 +1022,28 @@ def _near_identity(rng, old, kind):
     return out
 
 
+
+def _gen_grid(rng):
+    op = rng.choice(["transpose", "T", "swapaxes", "moveaxis", "flip0", "flip1", "rot90", "rot90", "tril", "tril", "triu", "triu",
+                     "stack", "bcast_rows", "bcast_len1", "flip1d", "tile1d", "diff1d"])
+    z = rng.random() < 0.15
+    comp = (lambda n: rand_comp_zeros(rng, n)) if z else (lambda n: rand_comp(rng, n))
+    if op in ("stack",):
+        return {"op": op, "cs": comp(rng.randint(1, 6)), "n": rng.randint(1, 4), "axis": rng.choice([0, 1, -1, -2])}
+    if op == "bcast_rows":
+        return {"op": op, "rows": rand_comp(rng, rng.randint(1, 5)), "cs": rand_comp(rng, rng.randint(1, 6))}
+    if op == "bcast_len1":
+        return {"op": op, "new": rand_comp(rng, rng.randint(1, 7)), "seed": rng.randint(0, 9)}
+    if op in ("flip1d", "tile1d", "diff1d"):
+        return {"op": op, "cs": comp(rng.randint(1, 8)), "r": rng.randint(1, 3)}
+    inp = {"op": op, "rc": comp(rng.randint(1, 6)), "cc": comp(rng.randint(1, 6))}
+    if op == "rot90":
+        inp["k"] = rng.randint(-5, 6)
+    elif op in ("tril", "triu"):
+        inp["k"] = rng.randint(-7, 7)
+    return inp
+
+
 def _gen_shuf(rng):
     kind = rng.choice(_SHUF_KINDS)
     if rng.random() < 0.5:   # uniform chunks: what `slicing.take` cuts the index into coincides with the chunks
@@ -948,6 +1100,16 @@ def generate(ctx):
                     yield "shuf", {"chunks": [list(cs)], "axis": 0, "groups": groups}
     for _ in range(ctx.n(160, 2500)):
         yield "shuf", _gen_shuf(rng)
+    # --- blockwise / key-map plans: chunks and every block vs the Lean plan ---------------------------------------------
+    # every pair of chunkings of a 2x3 (quick) / up to 3x4 (thorough) matrix through transpose / flip / rot90 / tril / triu
+    for N, M in ([(2, 3)] if not ctx.thorough() else [(2, 3), (3, 3), (3, 4), (1, 4), (4, 1)]):
+        for rc in comps(N):
+            for cc in comps(M):
+                for op, k in [("transpose", 0), ("flip0", 0), ("flip1", 0), ("rot90", 1), ("rot90", 2), ("rot90", 3),
+                              ("tril", 0), ("tril", -1), ("tril", 1), ("triu", 0), ("triu", 1), ("triu", -2)]:
+                    yield "grid", {"op": op, "k": k, "rc": list(rc), "cc": list(cc)}
+    for _ in range(ctx.n(170, 2500)):
+        yield "grid", _gen_grid(rng)
     # --- exhaustive small spaces: every chunking of n <= 4 (6 thorough), every pad width within the axis ---
     top = 3 if not ctx.thorough() else 5
     for n in range(1, top + 1):
